@@ -6,7 +6,7 @@ import std
 SPEC = {
     'prop_files': ['theories/Properties/W_json.v'],
     'coq_targets': ['theories/Properties/W_json.vo', 'theories/Wire/JsonCorr.vo'],
-    'closure_dirs': ['theories/Wire/Json.v', 'theories/Wire/JsonProofs.v', 'theories/Wire/JsonRT.v', 'theories/Wire/JsonDepth.v', 'theories/Wire/JsonTotal.v', 'theories/Wire/JsonCorr.v',
+    'closure_dirs': ['theories/Wire/Json.v', 'theories/Wire/JsonProofs.v', 'theories/Wire/JsonRT.v', 'theories/Wire/JsonDepth.v', 'theories/Wire/JsonTotal.v', 'theories/Wire/JsonSkip.v', 'theories/Wire/JsonCorr.v',
                      'theories/Wire/Item.v', 'theories/Base/Outcome.v', 'theories/Gen/Consts.v',
                      'theories/C09/Spec.v', 'theories/C09/Model.v'],
     'harness': 'wirejson',
